@@ -15,7 +15,7 @@ RULE = ('random crystals: Bravais type drawn from all 3-D (11) and 2-D (5) syste
 ASSUMPTIONS = ['positions compared modulo the lattice with tolerance 1e-6 (the class threshold is 1e-8)',
                'atoms closer than 0.25 (lattice units) are not generated']
 REQUIRED_OBS = {'crystals_checked': 20, 'eval:C18:closure': 20, 'eval:C18:atom-map': 100, 'nosym_crystals': 2,
-                'spin_crystals': 2, 'dim2_crystals': 3, 'noreduce_supercells': 3}
+                'spin_crystals': 2, 'dim2_crystals': 3, 'noreduce_supercells': 3, 'antiferromagnets': 5, 'afm_with_threefold_axis': 5}
 PER_CASE = 6
 
 
@@ -59,6 +59,27 @@ def run_case(case):
             spec = dict(spec, basis=sb)
             kw['noreduce'] = True
             flags.append('noreduce-supercell')
+        if 0.75 <= mode < 0.9:
+            # structured antiferromagnet: the chemical cell doubled along one lattice vector, second copy with reversed spins
+            # (anti-translation): every rotation of the chemical crystal survives, some only combined with a spin reversal
+            from vmon.ref import equiv
+            P0 = crystal.Crystal(latt, [[np.array(u) for u in lst] for lst in spec['basis']])
+            ax = int(rng.integers(spec['dim']))
+            S = np.eye(spec['dim'], dtype=int)
+            S[ax, ax] = 2
+            latt, sb = equiv.supercell_description(P0, S, None, permute=False)
+            vec = rng.uniform() < 0.3
+            dvec = P0.lattice[:, ax] / np.linalg.norm(P0.lattice[:, ax])
+            spins = []
+            for lst in sb:
+                sp = []
+                for u in lst:
+                    sgn = 1. if (u[ax] % 1.0) < 0.5 - 1e-9 else -1.
+                    sp.append(sgn * dvec if vec else sgn)
+                spins.append(sp)
+            spec = dict(spec, basis=sb)
+            kw['spins'] = spins
+            flags.append('antiferromagnet-vector' if vec else 'antiferromagnet')
         if 0.45 <= mode < 0.6:
             eps = rng.normal(size=(spec['dim'],) * 2) * 0.02
             eps = 0.5 * (eps + eps.T)
@@ -75,6 +96,8 @@ def run_case(case):
                 mon.count('spin_crystals', kw.get('spins') is not None)
                 mon.count('dim2_crystals', spec['dim'] == 2)
                 mon.count('noreduce_supercells', 'noreduce-supercell' in flags)
+                mon.count('antiferromagnets', any(f.startswith('antiferromagnet') for f in flags))
+                if any(f.startswith('antiferromagnet') for f in flags): mon.seen('afm_group_orders', len(crys.G))
                 if 'NOSYM' in flags:
                     mon.check(len(crys.G) == 1, 'C18:nosym-single-op', '|G|=%d' % len(crys.G))
                 if crys.N > 1 or len(crys.G) > 1:
@@ -82,4 +105,21 @@ def run_case(case):
                 if sample is None:
                     sample = {'kind': spec['kind'], 'lattice': latt, 'basis': spec['basis'], 'flags': flags,
                               'group_order': len(crys.G)}
+    if case['idx'] % 4 == 0:
+        # directed antiferromagnets that keep a three-fold axis: bcc "chromium" (corner up, centre down) and hexagonal layers
+        # stacked up/down along c; optional random orientation / strain-free scaling
+        c = float(rng.uniform(0.8, 1.6))
+        hexl = np.array([[.5, .5, 0.], [-np.sqrt(.75), np.sqrt(.75), 0.], [0., 0., 2 * c]])
+        for nm, latt, basis, spins in (
+                ('afm-bcc', np.eye(3), [[np.zeros(3), np.array([.5, .5, .5])]], [[1., -1.]]),
+                ('afm-hex-layers', hexl, [[np.zeros(3), np.array([0., 0., .5])]], [[1., -1.]]),
+                ('afm-hcp-like', hexl, [[np.array([0., 0., 0.]), np.array([1 / 3, 2 / 3, .25]), np.array([0., 0., .5]), np.array([1 / 3, 2 / 3, .75])]],
+                 [[1., 1., -1., -1.]])):
+            with contracts.active(mon):
+                with mon.guard('C18:construct', tags=[nm]):
+                    crys = crystal.Crystal(latt, basis, spins=spins)
+                    mon.count('antiferromagnets')
+                    mon.count('afm_with_threefold_axis', any(abs(np.trace(g.cartrot)) < 1e-9 for g in crys.G))
+                    mon.seen('afm_group_orders', len(crys.G))
+                    mon.sig([nm, len(crys.G), round(c, 3)])
     return mon.result(sample=sample)
